@@ -2,9 +2,12 @@
    Each theorem quantifies over every configuration, counters, store content and (where present) inbound message of the
    stated shape.  The trace-level statement "c20_check holds of every model trace" is NOT proved (`_partial`): what is
    proved are the per-step reactions; that they compose over traces is checked by the correspondence stream, and the
-   wall-clock spacing of the timers (the real run loop) is outside the model. *)
+   wall-clock spacing of the timers (the real run loop) is outside the model.
+   Trace level, proved since: 2001-2004 and 2006 on every trace; 2005 (an inbound message cancels the pending disconnect
+   and does not disturb a recovery) on every trace in which the application sends no ResendRequest of its own through
+   SendToTarget while a TestRequest is pending, refuted without that hypothesis (Session/PendingProofs.v). *)
 From Coq Require Import ZArith List Bool.
-From QF Require Import Base.Bytes Session.Types Session.Model Session.Spec Session.LocalProofs Session.FrameProofs Session.TraceProofs Session.KeepAliveProofs Session.LogonProofs.
+From QF Require Import Base.Bytes Session.Types Session.Model Session.Spec Session.LocalProofs Session.FrameProofs Session.TraceProofs Session.KeepAliveProofs Session.LogonProofs Session.ChunkProofs Session.ResendInvProofs Session.TgProofs Session.KeptProofs Session.StashTypeProofs Session.PendingProofs.
 Import ListNotations.
 Open Scope Z_scope.
 
@@ -114,3 +117,53 @@ Example c20_adopt_example :
   = [(ShLogon, 30, 1, 1, false, []); (ShInSession, 7, 2, 2, true, [(T_LOGON, 1, Some lgp_Y)])]
   /\ c07_check lgp_cfg (lgp_trace es) = [] /\ c20_check lgp_cfg (lgp_trace es) = [].
 Proof. exact lgp_accept_example. Qed.
+
+(* ---- clause 2005: an inbound message cancels the pending disconnect without disturbing a recovery in progress ---- *)
+(* STEP (b1): recovering (possibly under a pending TestRequest) with kept messages l: after any directly processed message
+   that leaves the session logged on and recovering, every kept number above the new expected number is still kept. *)
+Theorem c20_kept_messages_survive_step : forall s m l ce re,
+  unwrap_pending (s_st s) = SResend (Some l) ce re -> RI s -> LB s -> TS s ->
+  let s' := step s (EIncoming m) in
+  is_logged_on (s_st s') = true ->
+  forall st' c' e', unwrap_pending (s_st s') = SResend st' c' e' ->
+  forall k, In k (keys l) -> s_tgt s' < k -> In k (keys (olist st')).
+Proof. exact step_keeps_high. Qed.
+
+(* STEP (b2): ... and every ResendRequest written in that event is the next chunk: the chunk end is non-zero and at most
+   the new expected number (PQ: no ResendRequest waits in the outbound queue while a TestRequest is pending). *)
+Theorem c20_request_is_next_chunk_step : forall s m l ce re,
+  Boundary s -> RI s -> CI s -> PQ s -> is_pending (s_st s) = true ->
+  unwrap_pending (s_st s) = SResend (Some l) ce re -> s_in_buf s = [] ->
+  let s' := step s (EIncoming m) in
+  is_logged_on (s_st s') = true ->
+  forall rq, In rq (resend_requests (rev (s_wire s'))) -> ce <> 0 /\ ce <= s_tgt s'.
+Proof. exact step_request_is_chunk. Qed.
+
+(* TRACE LEVEL: clause 2005 of c20_check never fails on a trace in which the application sends no ResendRequest of its own
+   through SendToTarget while a TestRequest is pending (`pending_clean`), for every configuration and event list: the state
+   after the message is not "pending" (also when the message comes out of the inbound buffer), the kept messages above the
+   new expected number survive, and a ResendRequest is written only as the next chunk. *)
+Theorem c20_inbound_cancels_pending_on_clean_traces : forall c es, pending_clean es (init_sess c) ->
+  free_of [2005] (c20_check c (combine es (map obs_of (run_trace es (init_sess c))))) = true.
+Proof. exact c20_inbound_cancels_pending. Qed.
+
+Theorem c20_inbound_cancels_pending_without_app_resend_request : forall c es, Forall no_app_resend_request es ->
+  free_of [2005] (c20_check c (combine es (map obs_of (run_trace es (init_sess c))))) = true.
+Proof. exact c20_inbound_cancels_pending_plain. Qed.
+
+(* non-vacuity: chunked recovery with two pending episodes; kept 6 and 8 survive, the request written is the next chunk *)
+Example c20_inbound_cancels_pending_example :
+  Forall no_app_resend_request pdx_trace
+  /\ map (fun o => (ob_st (snd o), ob_tgt (snd o), wire_types (ob_wire (snd o)))) (c04x_run (c04x_cfg 2) pdx_trace)
+     = [(ShLogon, 1, []); (ShInSession, 2, [T_LOGON]); (ShResend true [6] 3 5, 2, [T_RESENDREQ]);
+        (ShPending (ShResend true [6] 3 5), 2, [T_TESTREQ]); (ShResend true [6] 3 5, 3, []);
+        (ShResend true [8; 6] 3 5, 3, []); (ShPending (ShResend true [8; 6] 3 5), 3, [T_TESTREQ]);
+        (ShResend true [8; 6] 0 5, 4, [T_RESENDREQ])]
+  /\ c20_check (c04x_cfg 2) (c04x_run (c04x_cfg 2) pdx_trace) = [].
+Proof. exact (conj pdx_trace_plain pdx_trace_recovers). Qed.
+
+(* REFUTED without the hypothesis: an application-sent ResendRequest queued while the TestRequest is pending is flushed by
+   the Heartbeat that answers the peer's TestRequest. *)
+Theorem c20_inbound_cancels_pending_refuted :
+  exists c es, c20_check c (combine es (map obs_of (run_trace es (init_sess c)))) = [(5%nat, 2005)].
+Proof. exact c20_2005_app_resend_request_refuted. Qed.
